@@ -549,7 +549,7 @@ pub mod state {
 
     //@ fn src/writers/file_log_writer/state.rs impl State / fn initialize_with_rotation
     //@   ret r
-    //@   props C06,C01,C07
+    //@   props C06,C01,C07,C08,C09,C14,C16
     //@   req[initialize_with_rotation.pre.arith] self.highest_ok()
     //@   ens[initialize_with_rotation.post] r is Ok ==> State::init_rot_post(&self.config, rotate_config, cleanup_in_background_thread, &r->Ok_0)
     //@   ens[initialize_with_rotation.post.err] State::start_naming(&self.config, rotate_config.naming) is Err ==> r is Err
@@ -568,7 +568,7 @@ pub mod state {
         }
     //@ fn src/writers/file_log_writer/state.rs impl State / fn initialize
     //@   ret r
-    //@   props C06,C01,C19
+    //@   props C06,C01,C19,C08,C09
     //@   req[initialize.pre.arith] old(self).highest_ok()
     //@   ens[initialize.post.active] old(self).active() ==> r is Ok && *final(self) == *old(self)
     //@   ens[initialize.post.err] r is Err ==> *final(self) == *old(self)
